@@ -1296,13 +1296,13 @@ func serEntryOK(T []uint64, off int, ntype Tag, vb []byte) bool {
 //@   safe
 
 //@ func (*ParsedJson).Clone variant fresh
-//@   props C16
+//@   props C16 C20
 //@   requires dst == nil && pj.Strings != nil
 //@   ensures lens: len(result.Tape) == len(pj.Tape) && len(result.Message) == len(pj.Message) && result.Strings != nil && len(result.Strings.B) == len(pj.Strings.B)
 //@   ensures tape: forall(0, len(pj.Tape), func(j int) bool { return result.Tape[j] == pj.Tape[j] })
 //@   ensures msg: forall(0, len(pj.Message), func(j int) bool { return result.Message[j] == pj.Message[j] })
 //@   ensures strs: forall(0, len(pj.Strings.B), func(j int) bool { return result.Strings.B[j] == pj.Strings.B[j] })
-//@   ensures fresh: !sameSlice(result.Tape, pj.Tape) && !sameSlice(result.Message, pj.Message) && result.Strings != pj.Strings && result.internal == nil
+//@   ensures fresh: !sameSlice(result.Tape, pj.Tape) && !sameSlice(result.Message, pj.Message) && result.Strings != pj.Strings && !sameSlice(result.Strings.B, pj.Strings.B) && result.internal == nil
 //@   safe
 
 // Clone into a caller-supplied destination: the result is that destination, holds exactly pj's contents (nothing of
